@@ -1459,8 +1459,8 @@ class connector( client ):
                     index      += 1
                     requests	= []
                     requests_paths = {}
-                    reqsiz	= reqmin
-                    rpysiz	= rpymin
+                    reqsiz	= reqmin + reqest	# the operation that opens the next packet counts, too
+                    rpysiz	= rpymin + rpyest
                 # This op is consistent with developing multiple requests; queue it, remembering paths
                 requests.append( (descr,op,req) )
                 requests_paths.setdefault( 'route_path', op.get( 'route_path' ))
